@@ -159,7 +159,71 @@ def scan_default_clone():
     return res
 
 
-def render(rows, appends, steps, clone):
+def scan_wrap_defaults():
+    """wrap_* keyword defaults in ast.py (the dict(...) call of default_options)"""
+    src = open(os.path.join(common.REPO, "shroud", "ast.py")).read()
+    tree = ast.parse(src)
+    out = {}
+    for n in ast.walk(tree):
+        if isinstance(n, ast.Call):
+            kws = {kw.arg: kw.value for kw in n.keywords if kw.arg}
+            if "wrap_c" in kws and "wrap_fortran" in kws:
+                for k in ("wrap_fortran", "wrap_c", "wrap_lua", "wrap_python"):
+                    v = kws.get(k)
+                    out[k] = v.value if isinstance(v, ast.Constant) and isinstance(v.value, bool) else None
+    return out
+
+
+def scan_flag_writes():
+    """every write to a `.wrap` flag in generate.py:
+       assigns: (function, keywords of `<x>.wrap.assign(...)` encoded 0 False/absent 1 True 2 node.wrap.<same> 9 other, in
+                the order fortran c_f c lua python)
+       direct:  (function, language, value) of `<x>.wrap.<lang> = <value>`; value 0 False 1 True 2 <y>.wrap.<same lang> 9 other
+       clears:  functions calling `<x>.wrap.clear()`"""
+    src = open(os.path.join(common.REPO, "shroud", "generate.py")).read()
+    tree = ast.parse(src)
+    langs = ("fortran", "c_f", "c", "lua", "python")
+    assigns, direct, clears = [], [], []
+
+    def is_wrap(n):
+        return isinstance(n, ast.Attribute) and n.attr == "wrap"
+
+    for fn in ast.walk(tree):
+        if not isinstance(fn, ast.FunctionDef):
+            continue
+        for n in ast.walk(fn):
+            if isinstance(n, ast.Call) and isinstance(n.func, ast.Attribute) and is_wrap(n.func.value):
+                if n.func.attr == "assign":
+                    enc = dict.fromkeys(langs, 0)
+                    for kw in n.keywords:
+                        v = kw.value
+                        if isinstance(v, ast.Constant):
+                            enc[kw.arg] = 1 if v.value else 0
+                        elif isinstance(v, ast.Attribute) and v.attr == kw.arg and is_wrap(v.value):
+                            enc[kw.arg] = 2
+                        else:
+                            enc[kw.arg] = 9
+                    if n.args:
+                        enc = dict.fromkeys(langs, 9)
+                    assigns.append((fn.name, n.lineno, tuple(enc[k] for k in langs)))
+                elif n.func.attr == "clear":
+                    clears.append((fn.name, n.lineno))
+            elif isinstance(n, ast.Assign):
+                for t in n.targets:
+                    if isinstance(t, ast.Attribute) and t.attr in langs and is_wrap(t.value):
+                        v = n.value
+                        if isinstance(v, ast.Constant) and isinstance(v.value, bool):
+                            code = 1 if v.value else 0
+                        elif isinstance(v, ast.Attribute) and v.attr == t.attr and is_wrap(v.value):
+                            code = 2
+                        else:
+                            code = 9
+                        direct.append((fn.name, n.lineno, t.attr, code))
+    key = lambda r: r[1]
+    return sorted(assigns, key=key), sorted(direct, key=key), sorted(clears, key=key)
+
+
+def render(rows, appends, steps, clone, wdef=None, writes=None):
     L = ["/- GENERATED by tools/extract_flags.py from the /repo working tree.  Do not edit. -/",
          "namespace Shroud.Gen.Flags", "",
          "/-- (emitter, directory, registered list, append directory, same file name) per write_output_file site;",
@@ -176,7 +240,22 @@ def render(rows, appends, steps, clone):
           "def driverSteps : List (Nat × Nat) := [" + ", ".join("(%d, %d)" % s for s in steps) + "]", "",
           "/-- wrap.assign in has_default_args: (c, fortran, lua, python, c_f); 0 False, 1 True, 2 node.wrap.<same>, 9 other -/",
           "def defaultCloneAssign : Nat × Nat × Nat × Nat × Nat := (%d, %d, %d, %d, %d)" % (
-              clone["c"], clone["fortran"], clone["lua"], clone["python"], clone["c_f"]), "",
+              clone["c"], clone["fortran"], clone["lua"], clone["python"], clone["c_f"]), ""]
+    b = lambda v: "true" if v else "false"
+    L += ["/-- defaults of wrap_fortran, wrap_c, wrap_lua, wrap_python in ast.default_options -/",
+          "def wrapDefaults : Bool × Bool × Bool × Bool := (%s, %s, %s, %s)" % tuple(
+              b(wdef.get(k)) for k in ("wrap_fortran", "wrap_c", "wrap_lua", "wrap_python")), "",
+          "/-- every `<x>.wrap.assign(...)` in generate.py: (function, (fortran, c_f, c, lua, python));",
+          "    0 False/absent 1 True 2 <y>.wrap.<same> 9 other -/",
+          "def cloneAssigns : List (String × Nat × Nat × Nat × Nat × Nat) := ["]
+    L.append(",\n".join('  ("%s", %d, %d, %d, %d, %d)' % ((f,) + e) for f, _, e in writes[0]))
+    lcode = {"fortran": 0, "c_f": 1, "c": 2, "lua": 3, "python": 4}
+    L += ["]", "", "/-- every direct `<x>.wrap.<lang> = v` in generate.py: (function, lang 0 fortran 1 c_f 2 c 3 lua 4 python,",
+          "    v 0 False 1 True 2 <y>.wrap.<same lang> 9 other) -/",
+          "def directWrites : List (String × Nat × Nat) := ["]
+    L.append(",\n".join('  ("%s", %d, %d)' % (f, lcode[l], c) for f, _, l, c in writes[1]))
+    L += ["]", "", "/-- functions of generate.py that call `<x>.wrap.clear()` -/",
+          "def clearSites : List String := [" + ", ".join('"%s"' % f for f, _ in writes[2]) + "]", "",
           "end Shroud.Gen.Flags"]
     return "\n".join(L) + "\n"
 
@@ -185,9 +264,12 @@ def regenerate():
     rows, appends, unknown = scan_sites()
     steps = scan_driver()
     clone = scan_default_clone()
-    changed = write_if_changed(GEN, render(rows, appends, steps, clone))
+    wdef = scan_wrap_defaults()
+    writes = scan_flag_writes()
+    changed = write_if_changed(GEN, render(rows, appends, steps, clone, wdef, writes))
     return {"write_sites": len(rows), "appends": appends, "driver_steps": steps, "default_clone": clone,
-            "unknown": unknown, "changed": changed}
+            "wrap_defaults": wdef, "flag_assign_sites": len(writes[0]), "flag_direct_writes": len(writes[1]),
+            "flag_clear_sites": len(writes[2]), "unknown": unknown, "changed": changed}
 
 
 if __name__ == "__main__":
